@@ -298,13 +298,14 @@ def mirror_check(c, prop_file, monitors, what, quick=(40, 30), thorough=(600, 40
                   "monitor_value": val, "steps": [{"op": op, "impl_result": res} for op, res, _ in k["steps"][:upto]],
                   "impl_observation_at_failure": k["steps"][upto - 1][2] if k["steps"] else None,
                   "how": "bin/h_mirror -seed %d -cases %d -ops %d (case %d)" % (k["batch_seed"], k["batch_idx"] + 1, len(k["steps"]), k["batch_idx"])})
-    if corr_bad and not mon_bad:
+    concrete = any(v[3] for v in c.violations)  # a violation with a failing input (known findings excluded)
+    if corr_bad and not concrete:
         k, corr = corr_bad[0]
         c.fail_obligation("correspondence Model/Mirror.v vs real mirror",
                           explain_mismatch(k, corr)[:3000],
                           {"batch_seed": k["batch_seed"], "batch_case": k["batch_idx"], "disagreeing_cases": len(corr_bad),
                            "steps": [{"op": op, "impl_result": res} for op, res, _ in k["steps"]][:60]})
-    if not proved and not mon_bad:
+    if not proved and not concrete:
         b = getattr(c, "broken", {"file": "?", "log": ""})
         c.fail_obligation("Properties/%s.v (%s)" % (prop_file, b["file"]), b["log"],
                           {"searched_cases": len(usable), "searched_steps": n_steps})
